@@ -532,7 +532,169 @@ class Repo:
         return out
 
     def _link_dispatch(self):
-        pass
+        self._inline_new_procedures()
+
+    # ------------------------------------------------------------------ helpers introduced after the rules were written
+    def _inline_new_procedures(self):
+        """A statement `self._check(x)` / `_check(x)` that calls a function the rules do not know (see known_funcs.txt) and
+        that returns nothing - typically an extracted block of guards - is replaced by the body of that function, with its
+        parameters bound to the arguments and its locals renamed.  The caller is then analysed as if the block had never
+        been moved out.  (Calls whose value is used are inlined at term level, see Evaluator._inline_value.)"""
+        self.inlined = []
+        counter = [0]
+        for fi in list(self.funcs.values()):
+            changed = self._inline_in_block_owner(fi, fi.node, counter)
+            if changed:
+                _CanonicalBranches().visit(fi.node)
+                ast.fix_missing_locations(fi.node)
+
+    def _resolve_procedure(self, fi, call):
+        f = call.func
+        target = recv = None
+        if isinstance(f, ast.Attribute) and isinstance(f.value, ast.Name) and f.value.id in ("self", "cls"):
+            cands = []
+            if fi.cls is not None:
+                m = self.resolve_method(fi.cls.qual, f.attr)
+                if m is not None:
+                    cands = [m]
+            if not cands:
+                cands = [ci.methods[f.attr] for ci in self.classes.values() if f.attr in ci.methods]
+            if len(cands) == 1 and cands[0].kind == "method":
+                target, recv = cands[0], f.value
+        elif isinstance(f, ast.Name):
+            q = f"{fi.module.name}.{f.id}"
+            if q in self.funcs and self.funcs[q].cls is None and self.funcs[q].parent is None:
+                target = self.funcs[q]
+        if target is None or not self.is_new_function(target.qual) or target is fi:
+            return None, None
+        return target, recv
+
+    def _inline_in_block_owner(self, fi, node, counter):
+        changed = False
+        for fld in ("body", "orelse", "finalbody"):
+            b = getattr(node, fld, None)
+            if not (isinstance(b, list) and b and isinstance(b[0], ast.stmt)):
+                continue
+            out = []
+            for st in b:
+                if isinstance(st, (ast.FunctionDef, ast.AsyncFunctionDef, ast.ClassDef)) and st is not node:
+                    out.append(st)
+                    continue
+                rep = None
+                if isinstance(st, ast.Expr) and isinstance(st.value, ast.Call):
+                    target, recv = self._resolve_procedure(fi, st.value)
+                    if target is not None:
+                        rep = self._procedure_body(target, st.value, recv, counter)
+                if rep is not None:
+                    self.inlined.append((fi.qual, target.qual))
+                    out.extend(rep)
+                    changed = True
+                else:
+                    if self._inline_in_block_owner(fi, st, counter):
+                        changed = True
+                    out.append(st)
+            setattr(node, fld, out)
+        for h in getattr(node, "handlers", []) or []:
+            if self._inline_in_block_owner(fi, h, counter):
+                changed = True
+        return changed
+
+    def _procedure_body(self, target, call, recv, counter):
+        fn = target.node
+        a = fn.args
+        if a.vararg or a.kwarg or a.posonlyargs or any(isinstance(x, ast.Starred) for x in call.args) \
+                or any(k.arg is None for k in call.keywords):
+            return None
+        body = copy.deepcopy(_strip_doc(fn.body))
+        for n in ast.walk(ast.Module(body=body, type_ignores=[])):
+            if isinstance(n, (ast.Yield, ast.YieldFrom, ast.Global, ast.Nonlocal)):
+                return None
+            if isinstance(n, ast.Return) and n.value is not None and not (isinstance(n.value, ast.Constant) and n.value.value is None):
+                return None
+        names = [x.arg for x in a.args]
+        if recv is not None:
+            if not names:
+                return None
+            selfname, names = names[0], names[1:]
+        else:
+            selfname = None
+        defaults = dict(zip([x.arg for x in a.args][len(a.args) - len(a.defaults):], a.defaults))
+        defaults.update({x.arg: d for x, d in zip(a.kwonlyargs, a.kw_defaults) if d is not None})
+        bound = {}
+        if len(call.args) > len(names):
+            return None
+        for n_, e_ in zip(names, call.args):
+            bound[n_] = e_
+        allp = names + [x.arg for x in a.kwonlyargs]
+        for k in call.keywords:
+            if k.arg not in allp or k.arg in bound:
+                return None
+            bound[k.arg] = k.value
+        for n_ in allp:
+            if n_ not in bound:
+                if n_ not in defaults:
+                    return None
+                bound[n_] = defaults[n_]
+        body = self._kill_returns(body)
+        if body is None:
+            return None
+        counter[0] += 1
+        prefix = f"_inl{counter[0]}_"
+        local = set(allp)
+        for n in ast.walk(ast.Module(body=body, type_ignores=[])):
+            if isinstance(n, ast.Name) and isinstance(n.ctx, (ast.Store, ast.Del)):
+                local.add(n.id)
+        ren = {n_: prefix + n_ for n_ in local}
+        for n in ast.walk(ast.Module(body=body, type_ignores=[])):
+            if isinstance(n, ast.Name):
+                if n.id in ren:
+                    n.id = ren[n.id]
+                elif selfname is not None and n.id == selfname and isinstance(recv, ast.Name):
+                    n.id = recv.id
+        pro = []
+        for n_ in allp:
+            asg = ast.Assign(targets=[ast.Name(id=ren[n_], ctx=ast.Store())], value=copy.deepcopy(bound[n_]))
+            ast.copy_location(asg, call)
+            pro.append(asg)
+        out = pro + body
+        for st in out:
+            ast.fix_missing_locations(st)
+        return out
+
+    def _kill_returns(self, stmts):
+        """a block whose early exits are guards `if c: ...; return` -> the same block with the rest nested in the else arm;
+        None when a return sits anywhere else (loop, with, try)"""
+        out = []
+        for i, st in enumerate(stmts):
+            if isinstance(st, ast.Return):
+                return out
+            if isinstance(st, ast.If):
+                has_ret = any(isinstance(n, ast.Return) for n in ast.walk(st))
+                if not has_ret:
+                    out.append(st)
+                    continue
+                if st.orelse or not isinstance(st.body[-1], ast.Return) or \
+                        any(isinstance(n, ast.Return) for x in st.body[:-1] for n in ast.walk(x)):
+                    return None
+                rest = self._kill_returns(stmts[i + 1:])
+                if rest is None:
+                    return None
+                head = st.body[:-1]
+                if head:
+                    st.body = head
+                    st.orelse = rest
+                    out.append(st)
+                elif rest:
+                    neg = ast.UnaryOp(op=ast.Not(), operand=st.test)
+                    ast.copy_location(neg, st.test)
+                    st.test = neg
+                    st.body = rest
+                    out.append(st)
+                return out
+            if any(isinstance(n, ast.Return) for n in ast.walk(st)):
+                return None
+            out.append(st)
+        return out
 
     # ------------------------------------------------------------------ lookup
     def func(self, qual):
